@@ -14,6 +14,7 @@ var suites = map[string]func(tier string) []*families.Case{
 	"f13":  func(tier string) []*families.Case { return families.F13(4, []string{""}, 24) },
 	"f11q": func(tier string) []*families.Case { return families.F11(4, 4, []string{"", "s"}) },
 	"f1q":  func(tier string) []*families.Case { return families.F1(1, 3, 3, []string{"", "i", "s", "is", "n", "nis"}) },
+	"f12":  func(tier string) []*families.Case { return families.F12(3, []string{"", "i", "n"}) },
 	"f2d":  func(tier string) []*families.Case { return families.F2D(3, 8, 3, []string{"", "s", "is"}) },
 }
 
